@@ -40,6 +40,9 @@ def read_from(stream) -> int:
         if len(b) != bytes_to_read:
             raise RuntimeError("Can't read %d bytes from the stream" % bytes_to_read)
         res = int.from_bytes(b, "little")
+        # only the shortest encoding is valid (same rule as in Bitcoin Core)
+        if res < 0xFD or (bytes_to_read > 2 and (res >> (4 * bytes_to_read)) == 0):
+            raise ValueError("Non-canonical compact int")
         return res
     else:
         return i
